@@ -1,1 +1,17 @@
-pub fn hello() {}
+//! fvh — verification harness for iGentAI/ferrous (property-based testing and fuzzing).
+#![allow(unused_parens)]
+pub mod client;
+pub mod driver;
+pub mod dump;
+pub mod findings;
+pub mod gen;
+pub mod model;
+pub mod props;
+pub mod resp;
+pub mod runner;
+pub mod sut;
+
+/// Number of parallel workers (each owns one child server) for black-box checks.
+pub fn workers() -> usize {
+    std::env::var("FVH_WORKERS").ok().and_then(|s| s.parse().ok()).unwrap_or(12)
+}
